@@ -87,7 +87,7 @@ def run(ctx):
     sub = type(ctx)(ctx.prop, ctx.facts, ctx.tier, ctx.config)
     c09.run(sub)
     for o in sub.obligations:
-        if o["rule"] == "R09.1":
+        if o["rule"] in ("R09.1", "R09.0"):
             ctx._add(o["status"], "R04.3", o["key"].split("|", 1)[1], o["desc"], o["where"], o["detail"])
         if o["rule"] == "R09.5":
             ctx._add(o["status"], "R04.4", o["key"].split("|", 1)[1], o["desc"], o["where"], o["detail"])
